@@ -44,7 +44,7 @@ func c08cli(c *h.Ctx) {
 			env, vars map[string]string
 			deps      []string
 		}
-		envKeys := map[string]bool{"STAGE_ID": true, "TK": true, "COMMON": true}
+		envKeys := map[string]bool{"STAGE_ID": true, "TK": true, "COMMON": true, "INHERITED": true}
 		varKeys := map[string]bool{"TVAR": true, "CVAR": true}
 		mk := func(pfx string, k int) []st {
 			var out []st
@@ -57,6 +57,9 @@ func c08cli(c *h.Ctx) {
 				}
 				if r.Chance(40) {
 					s.env["COMMON"] = "common-of-" + id
+				}
+				if r.Chance(35) {
+					s.env["INHERITED"] = "inherited-overridden-by-" + id // a name taskctl itself inherited from its parent
 				}
 				if r.Chance(70) {
 					s.vars["V_"+id] = "var-of-" + id
@@ -103,10 +106,18 @@ func c08cli(c *h.Ctx) {
 		for _, k := range vk {
 			format += fmt.Sprintf(" var.%s=[{{index . \"%s\"}}]", k, k)
 		}
-		format += " stagename=[{{index . \".Stage.Name\"}}] pwd=[%s]"
-		argv += " \"$(pwd)\""
-		cmd := fmt.Sprintf("printf '%s\\n'%s >> '%s'", format, argv, trace)
+		format += " stagename=[{{index . \".Stage.Name\"}}] pwd=[%s] pwdvar=[%s]"
+		argv += " \"$(pwd)\" \"$PWD\""
+		line := func(where string) string {
+			return fmt.Sprintf("printf '%s where=[%s]\\n'%s >> '%s'", format, where, argv, trace)
+		}
+		cmd := line("cmd")
 		tdef := gen.OM{{K: "command", V: []interface{}{cmd}}, {K: "env", V: taskEnv}, {K: "variables", V: taskVars}}
+		if r.Chance(60) {
+			// hooks of the shared task see the same overrides; a hook that (re)assigns a variable must not carry it over
+			tdef.Set("before", []interface{}{"COMMON=${COMMON:-unset}; " + line("before")})
+			tdef.Set("after", []interface{}{line("after")})
+		}
 		namedCtx := r.Chance(40) // the shared task runs in a named execution context (one object for all runs)
 		if namedCtx {
 			tdef.Set("context", "cx")
@@ -140,7 +151,7 @@ func c08cli(c *h.Ctx) {
 			cfg = append(gen.OM{{K: "contexts", V: gen.OM{{K: "cx", V: gen.OM{{K: "env", V: gen.OM{{K: "FROMCTX", V: "1"}}}, {K: "before", V: []interface{}{"true"}}}}}}}, cfg...)
 		}
 		h.WriteFile(dir+"/tasks.yaml", gen.YAML(cfg))
-		res := tc{Dir: real}.run(c, "-o", "raw", "p", "q", "shared")
+		res := tc{Dir: real, Env: []string{"INHERITED=from-parent"}}.run(c, "-o", "raw", "p", "q", "shared")
 		c.Eval(1)
 		got := lines(h.ReadFile(trace))
 		cas := map[string]interface{}{"yaml": gen.YAML(cfg), "trace": got, "exit": res.Exit, "stderr": tail(stripANSI(string(res.Stderr)), 600)}
@@ -175,7 +186,16 @@ func c08cli(c *h.Ctx) {
 					wantDir = s.dir
 				}
 			}
-			seen[id]++
+			if kv["where"] == "cmd" {
+				seen[id]++
+			}
+			where += " (" + kv["where"] + ")"
+			if _, ok := wantEnv["INHERITED"]; !ok {
+				wantEnv = h2overlay(wantEnv, map[string]string{"INHERITED": "from-parent"})
+			}
+			if g := kv["pwdvar"]; g != kv["pwd"] {
+				c.Violate("cli-dir", fmt.Sprintf("%s: $PWD=%q but pwd prints %q", where, g, kv["pwd"]), cas)
+			}
 			if wantDir == "" {
 				wantDir = real
 			}
